@@ -299,6 +299,12 @@ def unitStep (tf : Nat) (cmd : String) (args : List String) : Option String :=
           | .panic s => some ("panic " ++ s)
       | none => some "bad-op"
     | _, _, _, _ => some "bad-op"
+  | "nvmlayout", [ho, th, fs, z] =>
+    match ho.toNat?, th.toNat?, fs.toNat?, z.toNat? with
+    | some ho, some th, some fs, some z =>
+      let g : Geom := ⟨ho, th⟩
+      if nvmSizeOk g fs z && z ≥ 1 then some s!"ok {nvmManaged g fs z}" else some "err init"
+    | _, _, _, _ => some "bad-op"
   | "req", cores :: core :: pid :: order :: gfp :: "|" :: cls =>
     match cores.toNat?, core.toNat?, pid.toNat?, order.toNat?, gfp.toNat?, parseClassCfgs cls with
     | some cores, some core, some pid, some order, some gfp, some classes =>
